@@ -1,6 +1,7 @@
 package namer
 
 import (
+	"go/token"
 	"slices"
 	"strconv"
 	"strings"
@@ -43,19 +44,41 @@ func (tracker *defaultImportTracker) add(path string) {
 
 	parts := strings.Split(path, "/")
 
-	for i := range len(parts) {
-		localName := golangTrackerLocalName(parts, i+1)
+	tryUse := func(localName string) bool {
+		// must be usable as an import name: a Go identifier, no keyword, not blank
+		if !token.IsIdentifier(localName) || localName == "_" {
+			return false
+		}
 
 		if tracker.checkStd {
 			if p, ok := std.nameToPath[localName]; ok && p != path {
-				continue
+				return false
 			}
 		}
 
-		if _, ok := tracker.nameToPath[localName]; !ok {
-			tracker.nameToPath[localName] = path
-			tracker.pathToName[path] = localName
-			break
+		if _, ok := tracker.nameToPath[localName]; ok {
+			return false
+		}
+
+		tracker.nameToPath[localName] = path
+		tracker.pathToName[path] = localName
+		return true
+	}
+
+	for i := range len(parts) {
+		if tryUse(golangTrackerLocalName(parts, i+1)) {
+			return
+		}
+	}
+
+	// all candidates are invalid or taken: number the shortest one, so every path gets a name
+	base := golangTrackerLocalName(parts, 1)
+	if !token.IsIdentifier(base + "1") {
+		base = "pkg"
+	}
+	for n := 1; ; n++ {
+		if tryUse(base + strconv.Itoa(n)) {
+			return
 		}
 	}
 }
